@@ -604,6 +604,26 @@ fn compare_served(case: &PipeCase, got: Vec<(String, u32, Vec<Item>)>, image: &[
             if let Err(Verdict::Violation { detail, .. }) = checks::check_zoom_content(case, &dec) {
                 return ImageVerdict::Wrong(format!("advertised zoom level wrong: {}", detail));
             }
+            // an accepted file also serves its total summary and item count: they must be the final ones
+            let (want, zero_len) = checks::whole_file_stats(case);
+            match dec.summary {
+                Some(sm) => {
+                    if let Err(Verdict::Violation { detail, .. }) = checks::check_summary_values("total summary", sm, &want, &zero_len) {
+                        return ImageVerdict::Wrong(format!("readers accept the file but {}", detail));
+                    }
+                }
+                None => return ImageVerdict::Wrong("readers accept the file but it has no total summary".into()),
+            }
+            let want_count = match case.kind {
+                Kind::Wig => dec.blocks.len() as u64,
+                Kind::Bed => case.total_items() as u64,
+            };
+            if dec.data_count != want_count {
+                return ImageVerdict::Wrong(format!(
+                    "readers accept the file but its data/item count is {} instead of {}",
+                    dec.data_count, want_count
+                ));
+            }
         }
         Err(e) => return ImageVerdict::Wrong(format!("readers serve it but the independent decoder cannot read it: {}", e)),
     }
